@@ -9,7 +9,7 @@ from wntr.network.elements import HeadPump, Curve
 P = ["C02"]
 
 
-def _coef_case(npts, cached):
+def _coef_case(npts, cached, backwards=False):
     def build(cx):
         pts = []
         for i in range(npts):
@@ -19,7 +19,10 @@ def _coef_case(npts, cached):
         if npts == 1:
             cx.assume(cx.t(pts[0][0]) > 0, cx.t(pts[0][1]) > 0)
         else:
-            cx.assume(cx.t(pts[0][0]) < cx.t(pts[1][0]), cx.t(pts[0][1]) > cx.t(pts[1][1]))  # decreasing head curve
+            if backwards:    # the same curve entered high-flow point first
+                cx.assume(cx.t(pts[0][0]) > cx.t(pts[1][0]), cx.t(pts[0][1]) < cx.t(pts[1][1]))
+            else:
+                cx.assume(cx.t(pts[0][0]) < cx.t(pts[1][0]), cx.t(pts[0][1]) > cx.t(pts[1][1]))  # decreasing head curve
         curve = cx.obj(Curve, _name="c", _curve_type="HEAD", _points=list(pts))
         pump = cx.obj(HeadPump, _link_name="P1", _pump_curve_name="c", _curve_reg={"c": curve},
                       _curve_coeffs=None, _coeffs_curve_points=None)
@@ -33,6 +36,8 @@ def _coef_case(npts, cached):
             A, B = cx.t(A), cx.t(B)
             Q0, H0 = cx.t(pts[0][0]), cx.t(pts[0][1])
             posts = [("coefficients_valid", z3.And(A > 0, B >= 0)) if cx.mode == "symbolic" else ("coefficients_valid", A > 0 and B >= 0)]
+            now = curve.fields["_points"] if hasattr(curve, "fields") else curve._points
+            posts.append(("curve_definition_untouched_points_in_the_order_entered", len(now) == npts and all(a is b for a, b in zip(now, pts))))
             if npts == 1:
                 posts += [("C_is_2", C == 2), ("shutoff_head_is_4/3_design_head", cx.close(A, 4 * H0 / 3, H0)),
                           ("curve_passes_through_design_point", cx.close(A - B * Q0 * Q0, H0, H0)),
@@ -50,10 +55,10 @@ def _coef_case(npts, cached):
         if npts == 1:
             return dict(Q0=q, H0=h)
         return dict(Q0=rng.choice([0.0, q]), H0=h, Q1=q + rng.uniform(0.01, 0.5), H1=h * rng.uniform(0.1, 0.9))
-    return Case("%d_point_curve" % npts, build, sample=sample)
+    return Case("%d_point_curve%s" % (npts, "_entered_high_flow_first" if backwards else ""), build, sample=None if backwards else sample, crosscheck=not backwards)
 
 
-CONTRACTS = [Contract("wntr.network.elements:HeadPump.get_head_curve_coefficients", P, [_coef_case(1, False), _coef_case(2, False)],
+CONTRACTS = [Contract("wntr.network.elements:HeadPump.get_head_curve_coefficients", P + ["C11"], [_coef_case(1, False), _coef_case(2, False), _coef_case(2, False, backwards=True)],
                       interpret_always=(HeadPump.get_head_curve_coefficients,),
                       trusted=["CurveRegistry.__getitem__ returns the registered curve"])]
 
